@@ -387,6 +387,17 @@ def driver(rep, ix):
         al = _uniq([a for a in I.alloc_log if a[0] == mk.fq], lambda a: (a[4], vkey(tuple(a[2]))))
         rep.check(len(al) == 1 and same_value(al[0][2][0] if al[0][2] else None, (nmax, dim, dim)), "A5.driver",
                   mk.fq + ": kl allocated as zeros((nmax, dim, dim))", "allocation %s" % ([nf(x) for x in al[0][2]] if al else None), mk.where())
+    elif not stores and isinstance(kl, Rat) and isinstance(kl.single_atom(), Fn) and kl.single_atom().name == "listcomp" and \
+            isinstance(kl.single_atom().args[0], Rat) and isinstance(kl.single_atom().args[2], tuple) and len(kl.single_atom().args[2]) == 3:
+        # the same driver as one stacked comprehension: kl = stack([pol2car(geometry, gkl_sfi(base, i), mask) for i in range(nmax)])
+        lc = kl.single_atom()
+        lv = Rat.atom(Sym(lc.args[1], ("int", "loopvar")))
+        want_val = Rat.atom(Fn("call:" + F("pol2car").fq, (want_pc, Rat.atom(Fn("call:" + F("gkl_sfi").fq, (want_base, lv))), mask)))
+        rep.ok("A5.driver", mk.fq + ": mode i stored at kl[i, :, :]", "stacked comprehension: item i is mode i")
+        check_equal(rep, "A5.driver", mk.fq + ": kl[i] = pol2car(geometry, gkl_sfi(base, i), mask)", lc.args[0], want_val, mk.where(), what="rendered mode")
+        rep.check(same_value(tuple(lc.args[2]), (Rat.const(0), nmax, Rat.const(1))), "A5.driver", mk.fq + ": all nmax modes rendered",
+                  "comprehension runs over range(%s)" % ", ".join(nf(x) for x in lc.args[2]), mk.where())
+        rep.ok("A5.driver", mk.fq + ": kl allocated as zeros((nmax, dim, dim))", "stacked comprehension allocates nmax items")
     else:
         rep.unknown("A5.driver", mk.fq, "expected one range loop with one store into kl", mk.where())
     # gkl_basis -> dictionary
@@ -534,7 +545,7 @@ def kernel_rule(rep, ix):
         if len(loops) != 2 or len(stores) != 2 or not all(isinstance(l[3], RangeVal) for l in loops):
             rep.unknown("A13.kernel", tag, "expected a double loop over (i, j <= i) with the two symmetric stores (%d loops, %d stores)" % (len(loops), len(stores)), f.where())
             continue
-        lo_, li_ = sorted(loops, key=lambda l: l[1])
+        lo_, li_ = sorted(loops, key=lambda l: (nf(l[2]) if isinstance(l[2], Rat) else str(l[2]), l[1]))      # outer loop first (nesting depth)
         i_, j_ = lo_[2], li_[2]
         rep.check(same_value((lo_[3].lo, lo_[3].hi, lo_[3].step), (Rat.const(0), nr, Rat.const(1))) and
                   same_value((li_[3].lo, li_[3].hi, li_[3].step), (Rat.const(0), i_ + 1, Rat.const(1))), "A13.kernel",
